@@ -17,6 +17,8 @@ VOCAB = [
     '1.5', '(1)', '3)x', '.', ')', '(', '1.', '2.', '14.', '10)', '1)', '2)', '0.', '1.x', '007', '1', '42', '.5', '...', 'e.g.', 'i.e.,', ',', ';', ':', '::',
     '"quoted"', "'single'", "it's", '"', "'", '!', '!!', '?', 'what?!', '/', 'a/b', '{', '}', '{x}', ':-', ':-:', '-:', '|-', '-|-', '2 * 3', 'a _ b', 'x : y',
     '2 * 3', 'a * b * c', 'x　_　y', '5 * 6 *', '* x *', 'http://x.y/z', 'www.x.y', 'a.b@c.d',
+    # 6.2: what merely looks like a character reference
+    '&notit;', '&copyfoo;', '&ampere;', '&ltx;', '&nosuch;', '&#99999999;', '&#xFFFFFFF;', '&Amp;', '&#;', '&#x;', '&amp', '&#35',
     # digits that are not ASCII digits never form a list marker (5.2)
     '\u0661.', '\u0663)', '\uff11.', '\u0967.', '\u0661\u0662.', '1\u0662)',
 ]
